@@ -256,6 +256,22 @@ C11_StopOnlyWhenRemoved(gh) == "C11_StopOnlyWhenRemoved" \notin gh.bad
 C11_DemotedLeaderStepsDown(ns) ==
     \A n \in DOMAIN ns : (ns[n].up /\ ns[n].state = "L" /\ ns[n].cfgC.index = ns[n].cfgL.index) => IsVoter(ns[n].cfgL, n)
 
+\* C09: a snapshot holds exactly the committed updates up to its index; compaction never invalidates what a
+\* replication task reads (observed as the death of the process in a replication goroutine)
+C09_SnapshotCommitted(gh, ns) ==
+    \A n \in DOMAIN ns : ns[n].snapIdx > 0 =>
+        /\ ns[n].snapIdx <= Len(gh.committed)
+        /\ AllKnown(gh, ns[n].snapIdx) => ns[n].snapCmds = CmdSeq(gh, 1, ns[n].snapIdx)
+C09_NoViewInvalidation(ns) == \A n \in DOMAIN ns : ns[n].died # "replication"
+
+\* C12: a snapshot is labelled with the term of its last entry and the membership in force at its index
+LedgerCfgIdx(gh, k) == LET S == {i \in 1..Min(k, Len(gh.committed)) : gh.committed[i].e.y = "cfg"} IN IF S = {} THEN 0 ELSE SetMax(S)
+C12_LabelOK(gh, ns) ==
+    \A n \in DOMAIN ns : (ns[n].snapIdx > 0 /\ ns[n].snapIdx <= Len(gh.committed) /\ AllKnown(gh, ns[n].snapIdx)) =>
+        /\ ns[n].snapTerm = gh.committed[ns[n].snapIdx].e.t
+        /\ LET c == LedgerCfgIdx(gh, ns[n].snapIdx)
+           IN c > 0 => (ns[n].snapCfg.index = c /\ ns[n].snapCfg.nodes = gh.committed[c].e.c)
+
 \* C17(a): leader stickiness
 C17_LeaderStickiness(gh) == "C17_LeaderStickiness" \notin gh.bad
 
